@@ -401,6 +401,19 @@ def check_fit(case):
             hit = [nm for nm, val in alt.items() if val is not None and close(c.variance, val, 1e-8, 1e-8)]
             return {"key": "fit:residual-variance", "what": f"{v} | {c.evidence}: variance {c.variance}, RSS/(n-1) = {float(rss / (n - 1))}"
                                                             + (f" (matches {hit[0]})" if hit else "")}
+    # re-adding a node's CPD (another parent order, other numbers) replaces the old one: one CPD per node, lookups return the new one
+    from pgmpy.factors.continuous import LinearGaussianCPD
+
+    for v in nodes:
+        pa = O.parents_of(edges, v)
+        if len(pa) >= 1:
+            ev = list(reversed(m.get_cpds(node=v).evidence))
+            new = LinearGaussianCPD(v, [0.5] + [2.0 + j for j in range(len(ev))], 3.0, evidence=ev)
+            m.add_cpds(new)
+            if sorted(c.variable for c in m.cpds) != sorted(nodes) or m.get_cpds(node=v) is not new:
+                return {"key": "add_cpds:replace", "what": f"after re-adding a CPD for {v} with evidence {ev}: CPDs for {[c.variable for c in m.cpds]}, "
+                                                           f"get_cpds({v!r}) returns the {'new' if m.get_cpds(node=v) is new else 'old'} one"}
+            break
     # the fitted model is usable and a second fit replaces the CPDs
     m.to_joint_gaussian()
     m.fit(df)
